@@ -316,3 +316,24 @@ Example c15_boundary_65535 :
   wf_config c = true /\ byte_len (message_new c None) = 65535 /\
   len (message_bytes (message_new c None)) = 65535.
 Proof. vm_compute. repeat split. Qed.
+
+(* ---------- the parse-back clauses themselves: the premise above is C01 ---------- *)
+From DltV.Proofs Require Roundtrip.
+
+Theorem c15_new_roundtrip : forall c sh, wf_config c = true -> wf_opt wf_storage sh = true ->
+  dlt_message (message_bytes (message_new c sh)) None (is_some sh) = POk (Item (message_new c sh)) [].
+Proof. exact (c15_new_parses Roundtrip.message_roundtrip). Qed.
+Check c15_new_roundtrip : forall c sh, wf_config c = true -> wf_opt wf_storage sh = true ->
+  dlt_message (message_bytes (message_new c sh)) None (is_some sh) = POk (Item (message_new c sh)) [].
+Print Assumptions c15_new_roundtrip.
+
+Theorem c15_storage_roundtrip : forall m ts,
+  wf_message m = true -> ts_secs ts < 2 ^ 32 -> ts_micros ts < 2 ^ 32 ->
+  dlt_message (message_bytes (add_storage_header m ts)) None true
+  = POk (Item (add_storage_header m ts)) [].
+Proof. exact (c15_storage_parses Roundtrip.message_roundtrip). Qed.
+Check c15_storage_roundtrip : forall m ts,
+  wf_message m = true -> ts_secs ts < 2 ^ 32 -> ts_micros ts < 2 ^ 32 ->
+  dlt_message (message_bytes (add_storage_header m ts)) None true
+  = POk (Item (add_storage_header m ts)) [].
+Print Assumptions c15_storage_roundtrip.
